@@ -78,6 +78,8 @@ Monitor *mk_c02_delivery(World *w, bool clean_a, bool recovery_b, const std::str
 Monitor *mk_c16_redeliver(World *w);
 Monitor *mk_c15_fragsize(World *w);
 Monitor *mk_c08_names(World *w);
+Monitor *mk_c09_probe_judge(World *w);
+Monitor *install_injector(World *w);      // C09: reference-encoded downstream stream with arbitrary fragment lengths
 Monitor *mk_c10_wellformed(World *w);
 Monitor *mk_c14_ledger(World *w, bool check_held);
 Monitor *mk_probes(World *w);
